@@ -11,16 +11,25 @@ FUZZ_TARGET = '''#![no_main]
 use libfuzzer_sys::fuzz_target;
 use yarel::compiler;
 use yarel::vm::Vm;
-use std::cell::RefCell;
-thread_local! { static VM: RefCell<Option<Vm>> = RefCell::new(None); static N: RefCell<u32> = RefCell::new(0); }
+use std::cell::Cell;
+// The interpreter is kept behind a raw pointer and never dropped at process exit: yarel's heap is a
+// thread-local of its own, and thread-local destructors run in an unspecified order (dropping a Vm
+// after the heap is gone would be a harness artefact, not a finding). It is renewed every 2000 inputs.
+thread_local! { static VM: Cell<*mut Vm> = Cell::new(std::ptr::null_mut()); static N: Cell<u32> = Cell::new(0); }
 fuzz_target!(|data: &[u8]| {
     if let Ok(text) = std::str::from_utf8(data) {
-        VM.with(|vm| {
-            let mut vm = vm.borrow_mut();
-            let renew = N.with(|n| { let mut n = n.borrow_mut(); *n += 1; *n % 2000 == 0 });
-            if vm.is_none() || renew { *vm = Some(Vm::with_built_ins()); }
-            let _ = compiler::compile(vm.as_mut().unwrap(), text.to_owned(), None);
-        });
+        let n = N.with(|n| { n.set(n.get() + 1); n.get() });
+        let mut p = VM.with(|v| v.get());
+        if !p.is_null() && n % 2000 == 0 {
+            unsafe { drop(Box::from_raw(p)); }
+            p = std::ptr::null_mut();
+        }
+        if p.is_null() {
+            p = Box::into_raw(Box::new(Vm::with_built_ins()));
+            VM.with(|v| v.set(p));
+        }
+        let vm = unsafe { &mut *p };
+        let _ = compiler::compile(vm, text.to_owned(), None);
     }
 });
 '''
